@@ -4,7 +4,7 @@ COMMON = ["records are written by the harness from the real loader / runner; TLC
 PROPS = {
     "C20": dict(sub="conc", trace_spec="PCConfigTrace", prefix=["C20_"], start='"kind":',
                 models=[("PCConc", "PCConc_mc%d.cfg" % k) for k in (1, 2, 3, 4, 5)],
-                rule="every pair (and seeded triples) of {state, states, project state, log range, log subscribe/unsubscribe, start, stop, restart, scale, update, info} "
+                rule="every pair (and seeded triples) of {state, states, project state, log range, log subscribe/unsubscribe, start, stop, restart, scale, update, info, shutdown} "
                      "run concurrently for 250 ms against a live runner whose processes exit, restart and log; each batch in its own OS process; "
                      "recovered panics, fatal runtime errors of the batch process, calls in flight for more than 10 s and a shutdown / Run() that does not return are recorded",
                 assumptions=["data races as such are NOT decided here (see DESIGN.md section 7): only their crash / deadlock consequences are observable",
